@@ -31,6 +31,25 @@ func (v *Verifier) calleeKey(com *ssa.CallCommon) string {
 	if fn := com.StaticCallee(); fn != nil {
 		return fnKey(fn)
 	}
+	// dynamic call through a named variable (`next(ctx)`) or a struct field (`m.skipper(ctx)`):
+	// addressable in contracts as `call next #n` / `call .skipper #n`
+	if ld, ok := com.Value.(*ssa.UnOp); ok && ld.Op == token.MUL {
+		switch a := ld.X.(type) {
+		case *ssa.Alloc:
+			if a.Comment != "" {
+				return a.Comment
+			}
+		case *ssa.FreeVar:
+			return a.Name()
+		case *ssa.FieldAddr:
+			if st, ok := a.X.Type().Underlying().(*types.Pointer).Elem().Underlying().(*types.Struct); ok {
+				return "." + st.Field(a.Field).Name()
+			}
+		}
+	}
+	if p, ok := com.Value.(*ssa.Parameter); ok {
+		return p.Name()
+	}
 	return ""
 }
 
@@ -444,6 +463,9 @@ func (fr *Frame) contractCall(con *Contract, key string, sig *types.Signature, c
 		bind["result"] = TV{Tuple: tvs}
 	}
 	for _, cl := range con.Ensures {
+		if mentionsEvents(cl.Expr, fr.pendingHO) {
+			continue // talks about the callee's own call sites: not visible to callers
+		}
 		t, err := mkEC(st, pre).evalBool(cl.Expr)
 		if err != nil {
 			c.stale = append(c.stale, fmt.Sprintf("%s:%d: %v", cl.File, cl.Line, err))
@@ -1073,4 +1095,44 @@ func (fr *Frame) builtinCopy(in ssa.Instruction, com *ssa.CallCommon, st *State)
 	c.assumeG(Term{fmt.Sprintf("(forall ((j %s)) %s)", c.sc.idxSort(), body.S), SBool})
 	st.set(k, c.sc.define("elems", sto(E, slPtr(d), na)))
 	return &Val{T: []Term{n}}, nil
+}
+
+// mentionsEvents: does a contract expression refer to call events (other than higher-order parameters)?
+func mentionsEvents(e CExpr, ho map[string]*Event) bool {
+	switch x := e.(type) {
+	case *CEvent:
+		if x.Callee == "" {
+			return true
+		}
+		if ho != nil {
+			if _, ok := ho[x.Callee]; ok {
+				return false
+			}
+		}
+		return true
+	case *CBin:
+		return mentionsEvents(x.X, ho) || mentionsEvents(x.Y, ho)
+	case *CUn:
+		return mentionsEvents(x.X, ho)
+	case *CSel:
+		return mentionsEvents(x.X, ho)
+	case *CIdx:
+		return mentionsEvents(x.X, ho) || mentionsEvents(x.I, ho)
+	case *CCall:
+		if mentionsEvents(x.Fun, ho) {
+			return true
+		}
+		for _, a := range x.Args {
+			if mentionsEvents(a, ho) {
+				return true
+			}
+		}
+	case *CQuant:
+		return mentionsEvents(x.Body, ho)
+	case *CCond:
+		return mentionsEvents(x.C, ho) || mentionsEvents(x.A, ho) || mentionsEvents(x.B, ho)
+	case *CAssert:
+		return mentionsEvents(x.X, ho)
+	}
+	return false
 }
